@@ -115,12 +115,13 @@ def established(c):
 
 def nontrivial(c):
     return (bool(c["mask"] and any(a != "pass" for a in c["mask"])) or bool(c.get("silence_to")) or bool(c.get("reverse_to"))
-            or bool(c.get("inject")) or bool(c.get("server_writes")))
+            or bool(c.get("inject")) or bool(c.get("server_writes")) or bool(c.get("forge")))
 
 
 def case_key(c):
     return (c["variant"], tuple(c["mask"] or []), c["interval_ms"], c["no_backoff"], c.get("silence_from"),
             c.get("silence_until"), c.get("silence_to"), c.get("reverse_to"), c.get("server_writes") or 0,
+            c.get("forge") or "", c.get("forge_at") or 0,
             tuple((i["at"], i["to"], i["ht"], i["ms"], i["fo"], i["fl"], i["tl"], i["seq"]) for i in (c.get("inject") or [])))
 
 
@@ -132,6 +133,7 @@ def replay_of(c):
                                                  1 if c["no_backoff"] else 0, c.get("silence_from") or 0,
                                                  c.get("silence_until") or 0, c.get("silence_to") or ""),
             "reverse_to": c.get("reverse_to") or "",
+            "VERIF_DBG_FORGE": ("%s:%d" % (c["forge"], c.get("forge_at") or 0)) if c.get("forge") else "",
             "VERIF_DBG_INJECT": ",".join("%d:%s:%d:%d:%d:%d:%d:%d" % (i["at"], i["to"], i["ht"], i["ms"], i["fo"], i["fl"], i["tl"], i["seq"])
                                          for i in (c.get("inject") or [])),
             "case": slim(c)}
@@ -145,6 +147,8 @@ def describe(c):
         d += ", bursts to %s reversed" % c["reverse_to"]
     if c.get("server_writes"):
         d += ", server application writes %d records as soon as its handshake returns" % c["server_writes"]
+    if c.get("forge"):
+        d += ", forged second ClientHello (cookie %s) handed to the server at %d ms" % (c["forge"], c.get("forge_at") or 0)
     if c.get("inject"):
         i = c["inject"]
         d += ", %d forged epoch-0 handshake record(s) to the %s (type %d message_seq %d fragment %d+%d/%d) from %d ms" % (
@@ -154,7 +158,7 @@ def describe(c):
 
 def slim(c):
     d = {k: c.get(k) for k in ("variant", "mask", "interval_ms", "no_backoff", "silence_from", "silence_until", "silence_to",
-                               "reverse_to", "inject", "server_writes", "cdone", "sdone", "cerr", "serr", "tdone", "tfault", "data_ok", "mtu", "notes")}
+                               "reverse_to", "inject", "server_writes", "forge", "forge_at", "cdone", "sdone", "cerr", "serr", "tdone", "tfault", "data_ok", "mtu", "notes")}
     evs = []
     for e in c["events"][:160]:
         x = {k: e[k] for k in ("ev", "idx", "side", "t") if k in e}
@@ -383,49 +387,95 @@ def _acks_nst(c, r):
     return any(tuple(f) in nst for f in (r.get("ackfr") or []))
 
 
+HRR_NO_COOKIE = "HelloRetryRequest without a cookie although hello verification is on"
+HRR_OTHER_COOKIE = "HelloRetryRequest with a different cookie within one connection"
+NO_ECHO = "server left the cookie exchange although no ClientHello echoing the issued cookie had arrived"
+RIGHT_REFUSED = "server did not answer a second ClientHello that echoes its cookie and repeats the first hello"
+SITE_COOKIE = "internal/flight/flight13 flight0handler.go / flight2handler.go (HelloRetryRequest cookie exchange)"
+
+
 def monitor_cookie(c):
-    """C13 (DTLS 1.3) on the implementation trace: before every fragment of the ClientHello that answers the
-    HelloRetryRequest has been delivered, the server emits HelloRetryRequest records only, each time in direct response to
-    a delivered datagram that carries a ClientHello record, never on a timer"""
+    """C13 (DTLS 1.3) on the implementation trace. While hello verification is on (every variant but *-direct):
+    every HelloRetryRequest carries a non-empty cookie, the same one throughout the connection; the server emits nothing
+    but HelloRetryRequests (and alerts) until a COMPLETE second ClientHello has arrived whose cookie extension equals the
+    issued cookie ("no cookie issued" never matches anything) and - for the forged family - whose hello is the first one;
+    every HelloRetryRequest is a direct response to a delivered datagram that carries a ClientHello, never a timer."""
+    verify_on = "direct" not in c["variant"]
+    second = 1 if verify_on else 0
+    # the fragments of every candidate second ClientHello of the trace (the real client's, and forged ones)
+    need = {}
+
+    def msg_id(source, r):
+        return (source, r["tl"], r.get("ck") or "")
+
+    for e in c["events"]:
+        src = "client" if (e["ev"] == "emit" and e["side"] == "client") else ("forged" if e["ev"] == "inject" else None)
+        if src:
+            for r in e.get("recs") or []:
+                if r["k"] == "hs" and r["ht"] == 1 and r["e"] == 0 and r["ms"] == second:
+                    need.setdefault(msg_id(src, r), set()).add((r["fo"], r["fl"]))
+    have = {}
     emitted = {}
-    need = None            # fragments of the answering ClientHello still to be delivered to the server
-    have = set()
-    second = 1
-    if not any(r["k"] == "hs" and r["ht"] == 6 for e in c["events"] if e["ev"] == "emit" and e["side"] == "server"
-               for r in (e.get("recs") or [])) and c["variant"].endswith("direct"):
-        second = 0         # no cookie exchange configured: the first ClientHello is the one
+    issued = None
     last_delivered = None
+    forged_at = None
+    answered_forged = False
     for e in c["events"]:
         if e["ev"] == "emit":
             emitted[e["idx"]] = e.get("recs") or []
             if e["side"] != "server":
                 continue
-            complete = need is not None and need <= have
-            if complete:
-                return None
-            for r in e.get("recs") or []:
-                if not (r["k"] == "hs" and r["ht"] == 6 and r["e"] == 0):
-                    return "server emitted %s (epoch %d, type %d) at %d ms before it had received the ClientHello answering its HelloRetryRequest" % (
-                        r["k"], r["e"], r["ht"], e["t"])
-            if e["cause"] == "timer" and (e.get("recs") or []):
+            recs = e.get("recs") or []
+            for r in recs:
+                if r["k"] == "hs" and r["ht"] == 6 and r["e"] == 0:
+                    ck = r.get("ck") or ""
+                    if verify_on and ck in ("", "-"):
+                        return HRR_NO_COOKIE + " (at %d ms)" % e["t"]
+                    if issued is None:
+                        issued = ck
+                    elif ck != issued:
+                        return HRR_OTHER_COOKIE + " (at %d ms)" % e["t"]
+                elif r["k"] == "alert":
+                    continue
+                else:
+                    # the server moves on: ServerHello flight (or anything else)
+                    if forged_at is not None:
+                        answered_forged = True
+                    if verify_on:
+                        echoed = [k for k, fr in need.items() if fr <= have.get(k, set())]
+                        good = [k for k in echoed if issued not in (None, "", "-") and k[2] == issued and
+                                not (k[0] == "forged" and c.get("forge") == "altered")]
+                        if not good:
+                            return NO_ECHO + " (at %d ms it emitted %s epoch %d type %s; issued cookie %s; complete second " \
+                                "ClientHellos received so far carry %s)" % (
+                                    e["t"], r["k"], r["e"], r.get("ht"), issued if issued else "none",
+                                    [("forged " if k[0] == "forged" else "") + (k[2] or "?") for k in echoed] or "none")
+                    else:
+                        if not any(fr <= have.get(k, set()) for k, fr in need.items()):
+                            return "server emitted %s (epoch %d, type %s) at %d ms before it had received a complete ClientHello" % (
+                                r["k"], r["e"], r.get("ht"), e["t"])
+                    return _right_control(c, answered_forged)
+            hrr = [r for r in recs if r["k"] == "hs" and r["ht"] == 6]
+            if hrr and e["cause"] == "timer":
                 return "HelloRetryRequest sent by the retransmission timer at %d ms" % e["t"]
-            if e.get("recs") and (last_delivered is None or not any(r["k"] == "hs" and r["ht"] == 1 for r in last_delivered)):
+            if hrr and (last_delivered is None or not any(r["k"] == "hs" and r["ht"] == 1 for r in last_delivered)):
                 return NOT_CH + " (at %d ms; the datagram carried %s)" % (
                     e["t"], [(r["k"], r["e"], r.get("ht"), r.get("ms"), r.get("fo"), r.get("fl")) for r in (last_delivered or [])])
-        elif e["ev"] == "inject" and e["side"] == "server":
-            last_delivered = e.get("recs") or []
-        elif e["ev"] == "deliver" and e["side"] == "server":
-            last_delivered = emitted.get(e["idx"], [])
+        elif e["ev"] in ("deliver", "inject") and e["side"] == "server":
+            src = "forged" if e["ev"] == "inject" else "client"
+            last_delivered = (e.get("recs") or []) if e["ev"] == "inject" else emitted.get(e["idx"], [])
+            if e["ev"] == "inject" and c.get("forge"):
+                forged_at = e["t"]
             for r in last_delivered:
-                if r["k"] == "hs" and r["ht"] == 1 and r["ms"] == second:
-                    have.add((r["fo"], r["fl"]))
-                    if need is None:
-                        need = set()
-                        off = 0
-                        # the fragments of that message, from any emission of it
-                        allf = sorted({(x["fo"], x["fl"]) for recs in emitted.values() for x in recs
-                                       if x["k"] == "hs" and x["ht"] == 1 and x["ms"] == second})
-                        need = set(allf)
+                if r["k"] == "hs" and r["ht"] == 1 and r["e"] == 0 and r["ms"] == second:
+                    have.setdefault(msg_id(src, r), set()).add((r["fo"], r["fl"]))
+    return _right_control(c, answered_forged)
+
+
+def _right_control(c, answered_forged):
+    """positive control of the forged family: the right cookie on the unchanged hello must be accepted"""
+    if c.get("forge") == "right" and not answered_forged and not c.get("notes"):
+        return RIGHT_REFUSED
     return None
 
 
@@ -483,7 +533,7 @@ def _leg(chk, prop, leg, test, seed_off, monitor, monitor_name, rule, regenerate
     reported = set()
     for c in cases:
         m = monitor(c, F.get(c["variant"], 1)) if monitor is monitor_discipline else monitor(c)
-        if not m and monitor is not monitor_liveness and c["interval_ms"] < 10 ** 9 and not established(c):
+        if not m and monitor is not monitor_liveness and c["interval_ms"] < 10 ** 9 and not established(c) and not c.get("forge"):
             m = monitor_liveness(c)      # every scenario with a finite schedule must also complete
         if m:
             if m.startswith(NOT_CH):
@@ -493,6 +543,14 @@ def _leg(chk, prop, leg, test, seed_off, monitor, monitor_name, rule, regenerate
                 found = chk.finding(SITE_NOT_CH, SIG_NOT_CH,
                                     "%s [variant %s, injected %s, silence to %s until %s]" % (
                                         m, c["variant"], c.get("inject"), c.get("silence_to") or "-", c.get("silence_until")),
+                                    replay_of(c)) or found
+                continue
+            cookie_rule = next((x for x in (HRR_NO_COOKIE, HRR_OTHER_COOKIE, NO_ECHO, RIGHT_REFUSED) if m.startswith(x)), None)
+            if cookie_rule:
+                if cookie_rule in reported:
+                    continue
+                reported.add(cookie_rule)
+                found = chk.finding(SITE_COOKIE, {"monitor": cookie_rule, "version": 13}, "%s [%s]" % (m, describe(c)),
                                     replay_of(c)) or found
                 continue
             if m.startswith(PARTIAL_ACK):
@@ -530,7 +588,10 @@ def _leg(chk, prop, leg, test, seed_off, monitor, monitor_name, rule, regenerate
         m = monitor_liveness(c) or ("%d events in one handshake (limit for replay %d)" % (len(c["events"]), MAX_EVENTS))
         found = chk.finding(SITE, {"family": "dtls13", "variant": c["variant"], "monitor": "trace too long to replay"},
                             "%s [%s]" % (m, describe(c)), dict(replay_of(c), events=len(c["events"]))) or found
-    cases = [c for c in cases if len(c["events"]) <= MAX_EVENTS]
+    # a forged second ClientHello is judged by the cookie monitor alone: the model has no cookie bytes
+    n_forged = sum(1 for c in cases if c.get("forge"))
+    all_cases = cases
+    cases = [c for c in cases if len(c["events"]) <= MAX_EVENTS and not c.get("forge")]
     proved = _prove(chk, prop, found, regenerate)
     n_bad = 0
     if proved or getattr(chk, "hs13_proof_error", None) is None:
@@ -550,8 +611,8 @@ def _leg(chk, prop, leg, test, seed_off, monitor, monitor_name, rule, regenerate
     if not proved and not found:
         err = getattr(chk, "hs13_proof_error", (prop, "?", ""))
         chk.broken("proof obligation Properties/%s.v no longer checks (%s)" % (prop, err[1]), err[2])
-    nt = [c for c in cases if nontrivial(c)]
-    chk.count(leg, len(cases), [case_key(c) for c in nt],
+    nt = [c for c in all_cases if nontrivial(c)]
+    chk.count(leg, len(all_cases), [case_key(c) for c in nt],
               samples=[{"variant": c["variant"], "mask": c["mask"], "interval_ms": c["interval_ms"], "backoff": not c["no_backoff"],
                         "silence": [c.get("silence_to"), c.get("silence_from"), c.get("silence_until")],
                         "tdone_ms": c["tdone"], "datagrams": sum(1 for e in c["events"] if e["ev"] == "emit")} for c in nt[-3:]])
@@ -560,7 +621,7 @@ def _leg(chk, prop, leg, test, seed_off, monitor, monitor_name, rule, regenerate
     for c in cases:
         vs[c["variant"]] = vs.get(c["variant"], 0) + 1
     n_timer = sum(len(timer_groups(c, s)) for c in cases for s in ("client", "server"))
-    chk.leg_info(leg, variants=vs, not_accepted_by_model=n_bad, monitor=monitor_name, rule=rule,
+    chk.leg_info(leg, variants=vs, not_accepted_by_model=n_bad, forged_second_hellos_monitor_only=n_forged, monitor=monitor_name, rule=rule,
                  emitted_datagrams_predicted=sum(1 for c in cases for e in c["events"] if e["ev"] == "emit"),
                  timer_expiries_observed=n_timer, max_completion_ms=max([c["tdone"] for c in cases] or [0]),
                  reached_cap=sum(1 for c in cases for s in ("client", "server")
